@@ -15,6 +15,9 @@ from verif.tlc import MachineryError
 SCENARIOS_QUICK = [
     ('R_state_m1', 'W_metric_m1'), ('R_state_all', 'W_comp_vmd'), ('R_mdib', 'W_descr_m1'),
     ('R_descr', 'W_descr_ch'), ('R_ctx_all', 'W_ctx'), ('R_state_m1', 'W_comp_vmd'),
+    # a requested descriptor is created / deleted while the request is served ('post:' / 'pre:' operations run
+    # unscheduled after / before every schedule and restore the start state)
+    ('R_descr_dA', 'W_add_dA', 'post:W_del_dA'), ('R_descr_dA', 'W_del_dA', 'pre:W_add_dA'),
 ]
 SCENARIOS_THOROUGH = SCENARIOS_QUICK + [
     ('R_state_m1', 'W_metric_m1', 'W_comp_vmd'), ('R_state_all', 'R_descr', 'W_descr_m1'),
@@ -28,10 +31,21 @@ def run_scenarios(run, scenarios, limit_per_scenario, family, prefix='c07'):
     traces, descrs = [], []
     try:
         programs = {}
+        full = scenarios
+        scenarios = [tuple(n for n in sc if ':' not in n) for sc in full]
+        pres = [[n[4:] for n in sc if n.startswith('pre:')] for sc in full]
+        posts = [[n[5:] for n in sc if n.startswith('post:')] for sc in full]
+        # operations that change which descriptors exist are recorded in the state they need, then undone
+        before_record = {'W_del_dA': ['W_add_dA']}
+        after_record = {'W_add_dA': ['W_del_dA']}
         for sc in scenarios:
             for name in sc:
                 if name not in programs:
+                    for other in before_record.get(name, []):
+                        lab.run_free(other)
                     programs[name] = lab.record_program(name)
+                    for other in after_record.get(name, []):
+                        lab.run_free(other)
         run.note('thread_programs', {n: [f"{e['op']}:{e['lock']}" for e in p] for n, p in programs.items()})
         for si, sc in enumerate(scenarios):
             progs = {i + 1: programs[n] for i, n in enumerate(sc)}
@@ -47,7 +61,7 @@ def run_scenarios(run, scenarios, limit_per_scenario, family, prefix='c07'):
             recs = []
             for s in scheds:
                 try:
-                    rec = lab.execute(sc, s['sched'])
+                    rec = lab.execute(sc, s['sched'], pres[si], posts[si])
                 except MachineryError:
                     # e.g. an operation died in the middle of its program: start again with a fresh pair, once
                     try:
@@ -55,9 +69,7 @@ def run_scenarios(run, scenarios, limit_per_scenario, family, prefix='c07'):
                     except Exception:  # noqa: BLE001
                         pass
                     lab = Lab()
-                    for name in sc:
-                        lab.record_program(name)
-                    rec = lab.execute(sc, s['sched'])
+                    rec = lab.execute(sc, s['sched'], pres[si], posts[si])
                 rec['predicted_snapshot'] = s['snapshot']
                 recs.append(rec)
                 run.distinct_traces.add((sc, tuple(s['sched'])))
